@@ -289,7 +289,7 @@ func (h *Harness) Report(kind string, c any, f *Failure) bool {
 		return true
 	}
 	h.violation(h.writeReplay(kind, c, f), f)
-	if strings.HasSuffix(f.Key, "|stall") {
+	if strings.HasSuffix(f.Key, "|stall") || strings.HasSuffix(f.Key, "-hangs") {
 		h.Col.WritePart()
 		os.Exit(1)
 	}
@@ -310,8 +310,8 @@ func (h *Harness) Fail(rt *rapid.T, kind string, c any, f *Failure) {
 		h.Col.Excluded(kf.Key)
 		return
 	}
-	if strings.HasSuffix(f.Key, "|stall") {
-		// a spinning goroutine can neither be killed nor shrunk around in-process:
+	if strings.HasSuffix(f.Key, "|stall") || strings.HasSuffix(f.Key, "-hangs") {
+		// a spinning or forever-blocked goroutine can neither be killed nor shrunk around in-process:
 		// report the current case, save the evidence and leave.
 		h.violation(h.writeReplay(kind, c, f), f)
 		h.Col.WritePart()
